@@ -3,13 +3,14 @@ NULLDET-1, WIDEN-1, NF-1..3, NF-5, NF-6, EQ-1, DROP-1."""
 from __future__ import annotations
 
 import ast
+import re
 from typing import Dict, List, Optional, Set, Tuple
 
 from ..ctx import Ctx
 from ..model import AnalysisError, ClassInfo, FuncInfo, attr_chain, norm, walk_no_nested
 from ..paths import Path, enumerate_paths
 from ..report import ALLOWED, DISCHARGED, VIOLATED, RuleResult
-from ..util import enclosing_loop, follows_unconditionally, has_escape, names_in
+from ..util import dominating_conditions, enclosing_loop, follows_unconditionally, has_escape, names_in
 
 GEN = "json_to_models/generator.py"
 CPLX = "json_to_models/dynamic_typing/complex.py"
@@ -279,10 +280,20 @@ def rule_opt2(ctx: Ctx) -> RuleResult:
         nm = norm(lp.target)
         paths = enumerate_paths(lp.body)
         ok = True
+        # locals that hold the current entry (`cur = fields[name]`, bound once in the loop body)
+        entry = f"{mt.acc}[{nm}]"
+        aliases = [entry]
+        for s_ in lp.body:
+            if isinstance(s_, ast.Assign) and len(s_.targets) == 1 and isinstance(s_.targets[0], ast.Name) and norm(s_.value) == entry and \
+                    sum(1 for x in ast.walk(lp) if isinstance(x, ast.Name) and x.id == s_.targets[0].id and isinstance(x.ctx, ast.Store)) == 1:
+                aliases.append(s_.targets[0].id)
         for p in paths:
-            is_opt = p.truth(f"isinstance({mt.acc}[{nm}], DOptional)")
-            wrapped = any(isinstance(s, ast.Assign) and norm(s.targets[0]) == f"{mt.acc}[{nm}]" and
-                          norm(s.value) == f"DOptional({mt.acc}[{nm}])" for s in p.stmts())
+            is_opt = None
+            for al in aliases:
+                t_ = p.truth(f"isinstance({al}, DOptional)")
+                is_opt = t_ if t_ is not None else is_opt
+            wrapped = any(isinstance(s, ast.Assign) and norm(s.targets[0]) == entry and
+                          norm(s.value) in [f"DOptional({al})" for al in aliases] for s in p.stmts())
             if is_opt is False and not wrapped:
                 ok = False
                 why = "a missing, not yet optional field is left required"
@@ -354,6 +365,18 @@ def rule_opt3(ctx: Ctx) -> RuleResult:
                     iff = f.module.parents.get(r)
                     if isinstance(iff, ast.If) and norm(iff.test) == fv:
                         ok = True
+    # the flag assigned from the membership test itself: `optional = Null in types`
+    for n in walk_no_nested(f.node):
+        if isinstance(n, ast.Assign) and len(n.targets) == 1 and isinstance(n.targets[0], ast.Name) and isinstance(n.value, ast.Compare) \
+                and len(n.value.ops) == 1 and isinstance(n.value.ops[0], ast.In) and norm(n.value.left) == "Null":
+            fv = n.targets[0].id
+            others = [a for a in walk_no_nested(f.node) if isinstance(a, (ast.Assign, ast.AugAssign, ast.AnnAssign)) and a is not n
+                      and any(isinstance(t, ast.Name) and t.id == fv for t in (a.targets if isinstance(a, ast.Assign) else [a.target]))]
+            for r in walk_no_nested(f.node):
+                if isinstance(r, ast.Return) and isinstance(r.value, ast.Call) and norm(r.value.func) == "DOptional" and not others:
+                    iff = f.module.parents.get(r)
+                    if isinstance(iff, ast.If) and norm(iff.test) == fv and r.lineno > n.lineno:
+                        ok = True
     rr.ob(f.relpath, f.qualname, "if Null in types: optional = True ... if optional: return DOptional(meta_type)",
           "a Null candidate makes the simplified type Optional", DISCHARGED if ok else VIOLATED,
           "found" if ok else "Null candidates no longer lead to an Optional result", f.node.lineno)
@@ -409,9 +432,16 @@ def rule_widen1(ctx: Ctx) -> RuleResult:
             child = n
             while p is not None and p is not f.node:
                 if isinstance(p, (ast.If, ast.While)) and child in p.body:
-                    guards.append(norm(p.test))
+                    # `L.count(W)` as a truth value asks `W in L`
+                    guards.append(re.sub(r"([\w.]+)\.count\((\w+)\)(?!\s*[<>=!])", r"\2 in \1", norm(p.test)))
                 elif isinstance(p, ast.If):
                     guards.append(f"not ({norm(p.test)})")
+                elif isinstance(p, ast.For) and child in p.body and isinstance(p.iter, ast.Call) and norm(p.iter.func) == "range" \
+                        and len(p.iter.args) == 1 and isinstance(p.iter.args[0], ast.Call) and isinstance(p.iter.args[0].func, ast.Attribute) \
+                        and p.iter.args[0].func.attr == "count" and len(p.iter.args[0].args) == 1 and len(p.body) == 1 and child is p.body[0] \
+                        and norm(p.iter.args[0].func.value) == norm(n.func.value) and norm(p.iter.args[0].args[0]) == norm(n.args[0]):
+                    # `for _ in range(L.count(W)): L.remove(W)`: as many removals as there are occurrences - `while W in L`
+                    guards.append(f"{norm(n.args[0])} in {norm(n.func.value)}")
                 child, p = p, f.module.parents.get(p)
             lst = norm(n.func.value)
             if what == "int":
@@ -685,7 +715,10 @@ def rule_nf(ctx: Ctx) -> RuleResult:
                 if isinstance(a, ast.Call) and norm(a.func) == "DUnion":
                     why = "argument is a fresh union"
                 else:
-                    # dominating negative isinstance guard on the same expression
+                    # dominating negative isinstance guard on the same expression (any spelling: if / conditional expression /
+                    # short circuit / early exit; see util.dominating_conditions)
+                    if (f"isinstance({norm(a)}, DOptional)", False) in dominating_conditions(f.module, n, f.node):
+                        why = "every evaluation is dominated by `not isinstance(..., DOptional)`"
                     p = f.module.parents.get(n)
                     child = n
                     while p is not None and p is not f.node and why is None:
@@ -702,6 +735,11 @@ def rule_nf(ctx: Ctx) -> RuleResult:
     rr.instances += 1
     ok = any(isinstance(n, ast.If) and norm(n.test) == "isinstance(t, DOptional)" and any(
         norm(s) == "t = t.type" for s in n.body) for n in walk_no_nested(ot.node))
+    # the same unwrapping as a conditional expression (either polarity)
+    ok = ok or any(isinstance(n, ast.Assign) and norm(n.targets[0]) == "t" and isinstance(n.value, ast.IfExp) and (
+        (norm(n.value.test) == "isinstance(t, DOptional)" and norm(n.value.body) == "t.type" and norm(n.value.orelse) == "t") or
+        (norm(n.value.test) == "not isinstance(t, DOptional)" and norm(n.value.body) == "t" and norm(n.value.orelse) == "t.type"))
+        for n in walk_no_nested(ot.node))
     rr.ob(ot.relpath, ot.qualname, "if isinstance(t, DOptional): t = t.type", "re-simplifying the content of an Optional unwraps "
           "an Optional result before re-wrapping", DISCHARGED if ok else VIOLATED, "found" if ok else "missing", ot.node.lineno)
     return rr
@@ -729,10 +767,17 @@ def rule_nf6(ctx: Ctx) -> RuleResult:
     rr.instances += 1
     ok = False
     for lp in walk_no_nested(f.node):
-        if isinstance(lp, ast.For) and norm(lp.iter) in ("self.models", "self._registry.values()") and isinstance(lp.target, ast.Name):
+        tgt = None
+        if isinstance(lp, ast.For) and norm(lp.iter) in ("self.models", "self._registry.values()", "list(self.models)",
+                                                         "list(self._registry.values())") and isinstance(lp.target, ast.Name):
+            tgt = lp.target.id
+        elif isinstance(lp, ast.For) and norm(lp.iter) in ("self._registry.items()", "list(self._registry.items())") \
+                and isinstance(lp.target, ast.Tuple) and len(lp.target.elts) == 2 and isinstance(lp.target.elts[1], ast.Name):
+            tgt = lp.target.elts[1].id        # for _, model in self._registry.items()
+        if tgt is not None:
             calls = [st.value for st in lp.body if isinstance(st, ast.Expr) and isinstance(st.value, ast.Call)
                      and isinstance(st.value.func, ast.Attribute) and st.value.func.attr == "optimize_type"
-                     and st.value.args and norm(st.value.args[0]) == lp.target.id]
+                     and st.value.args and norm(st.value.args[0]) == tgt]
             if calls and not has_escape(lp.body) and merges and lp.lineno > merges[0].lineno:
                 ok = True
     rr.ob(f.relpath, f.qualname, "for model_meta in self.models: generator.optimize_type(model_meta)",
@@ -881,6 +926,32 @@ def rule_drop1(ctx: Ctx) -> RuleResult:
                       "fields are skipped only when their type is Unknown or Null (every observed value null), and only for "
                       "pydantic/sqlmodel", DISCHARGED if okc and only_fw else VIOLATED,
                       "kept unless the type is Unknown / Null" if okc and only_fw else "fields can be dropped for another reason", f.node.lineno)
+                continue
+            if not conts and not comps:
+                # the positive form: `if <type of the field> not in (Unknown, Null): kept.append(field)`
+                apps = [n for n in walk_no_nested(f.node) if isinstance(n, ast.Call) and isinstance(n.func, ast.Attribute) and n.func.attr == "append"
+                        and enclosing_loop(f.module, n) is not None and n.args and norm(n.args[0]) == norm(enclosing_loop(f.module, n).target)]
+                okp = bool(apps)
+                texts = []
+                for a_ in apps:
+                    lvn = norm(enclosing_loop(f.module, a_).target)
+                    conds = dominating_conditions(f.module, a_, f.node)
+                    texts += [("" if t_ else "not ") + c_ for c_, t_ in sorted(conds)]
+                    for c_, t_ in conds:
+                        subj = c_.split(" In ")[0] if " In (" in c_ else None
+                        if subj is None or t_ or c_.split(" In ", 1)[1] not in ("(Unknown, Null)", "(Null, Unknown)"):
+                            okp = False
+                            continue
+                        if subj not in (f"self.model.type[{lvn}]", f"self.model.type.get({lvn})"):
+                            ds = [d for d in walk_no_nested(f.node) if isinstance(d, (ast.Assign, ast.AnnAssign)) and d.value is not None
+                                  and norm(d.targets[0] if isinstance(d, ast.Assign) else d.target) == subj]
+                            if not (len(ds) == 1 and norm(ds[0].value) in (f"self.model.type[{lvn}]", f"self.model.type.get({lvn})")):
+                                okp = False
+                only_fw = k.name.startswith(("Pydantic", "SqlModel"))
+                rr.ob(f.relpath, f.qualname, "; ".join(texts)[:90],
+                      "fields are skipped only when their type is Unknown or Null (every observed value null), and only for "
+                      "pydantic/sqlmodel", DISCHARGED if okp and only_fw else VIOLATED,
+                      "kept unless the type is Unknown / Null" if okp and only_fw else "fields can be dropped for another reason", f.node.lineno)
                 continue
             for c in conts:
                 iff = f.module.parents.get(c)
